@@ -205,6 +205,30 @@ def normalise(sk, side):
     return keys
 
 
+def spread_merged_calls(kw, kr):
+    """`f(if c {a} else {b}, ..)` on one side and `if c {f(a, ..)} else {f(b, ..)}` on the other are the same codec behaviour:
+    when a call descriptor carries merged (`phi{..}`) arguments, the calls of that name are compared on both sides by the set
+    of alternatives each parameter can take instead of call by call"""
+    names = {k[0] for k in kw | kr if any("phi{" in d for _, d in k[1])}
+    if not names:
+        return kw, kr
+
+    def fold(keys):
+        out = set()
+        acc = {}
+        for k in keys:
+            if k[0] in names:
+                a = acc.setdefault(k[0], {})
+                for p, d in k[1]:
+                    a.setdefault(p, set()).update(R._alts(d))
+            else:
+                out.add(k)
+        for nm, a in acc.items():
+            out.add((nm, tuple(sorted((p, "{" + " | ".join(sorted(v)) + "}") for p, v in a.items()))))
+        return out
+    return fold(kw), fold(kr)
+
+
 def fmt(d):
     return "%s(%s)" % (d[0], ", ".join("%s=%s" % kv for kv in d[1]))
 
@@ -226,6 +250,7 @@ def r2(ctx):
         sw.update(decisions(ctx, wb))
         sr.update(decisions(ctx, rb))
         kw, kr = normalise(sw, "w"), normalise(sr, "r")
+        kw, kr = spread_merged_calls(kw, kr)
         detail = {"writer": sorted(fmt(d) for d in kw), "reader": sorted(fmt(d) for d in kr)}
         bad = False
         asym = ASYMMETRY.get(name, {})
@@ -533,7 +558,7 @@ def payload_used(body, cs):
 def ld_sites(ctx, rule, files, discharged):
     """T4 length-determinant discipline over the bodies defined in `files`"""
     P = ctx.program()
-    nw = nr = 0
+    cnt = [0, 0]
     for b in P.lib_bodies("asn1rs"):
         if "::promoted[" in b.path or "::tests::" in b.path or not any(b.file.endswith(f) for f in files):
             continue
@@ -549,6 +574,21 @@ def ld_sites(ctx, rule, files, discharged):
                 O = X.Origins(b, P)
             args = O.call_args(cs)
             lb, ub = F.rd(args[1]), F.rd(args[2])
+            # one call whose two bounds were chosen together on two paths (`f(if c {None} else {min}, if c {None} else {max})`)
+            # stands for the two calls it merges: evaluate it once per alternative so that site keys (and the findings
+            # recorded under them) do not depend on whether the branches share the call
+            la, ua = R._alts(lb), R._alts(ub)
+            variants = list(zip(la, ua)) if len(la) == len(ua) and len(la) > 1 else [(lb, ub)]
+            for lb, ub in variants:
+                for _ in ld_one(ctx, rule, b, cs, O, lb, ub, counters, discharged, cnt):
+                    pass
+    return cnt[0], cnt[1]
+
+
+def ld_one(ctx, rule, b, cs, O, lb, ub, counters, discharged, cnt):
+    P = ctx.program()
+    if True:
+        if True:
             root = b.root or b.path
             base = "%s#%s(%s, %s)" % (root, cs.name, lb[:40], ub[:40])
             k = counters[base] = counters.get(base, -1) + 1
@@ -557,9 +597,9 @@ def ld_sites(ctx, rule, files, discharged):
             detail = {"function": b.path, "call": cs.loc(), "bounds": [lb, ub]}
             if m and int(m.group(1)) < 65536:
                 ctx.ok(rule, key, dict(detail, reason="constant upper bound below 64K: never fragments"), nontrivial=False)
-                continue
+                return
             if cs.name == "write_length_determinant":
-                nw += 1
+                cnt[0] += 1
                 in_loop = cs.target is not None and cs.bb in b.reach_from(cs.target)
                 if payload_used(b, cs) and in_loop:
                     # continuation fragments: X.691 11.9.3.8.3 - the encoding ends with a fragment shorter than 16K (possibly
@@ -586,7 +626,7 @@ def ld_sites(ctx, rule, files, discharged):
                     ctx.fail(rule, key, "the fragment size returned by write_length_determinant is dropped: for >= 16384 items only the "
                                         "first fragment is announced and no further length is written", cs.loc(), detail)
             else:
-                nr += 1
+                cnt[1] += 1
                 leaf = "%s@%s" % (X.short(cs.callee), cs.loc())
                 tested = None
                 if b.name == "read_length_determinant" and not cs.dest["p"]:
@@ -594,8 +634,8 @@ def ld_sites(ctx, rule, files, discharged):
                     ret = [d for d in b.defs.get(0, ()) if d[2] == "assign"]
                     if any(X.render(O.rvalue(d[3], d[0], d[1], 0)).find("read_length_determinant(") >= 0 for d in ret):
                         ctx.ok(rule, key, dict(detail, reason="wrapper returns the value unchanged; its call sites are checked"), nontrivial=False)
-                        nr -= 1
-                        continue
+                        cnt[1] -= 1
+                        return
                 for body2 in [b]:
                     for c in F.comparisons(body2, O):
                         if c.kind != "b" or not (2 <= c.boundary <= 16384):
@@ -629,7 +669,8 @@ def ld_sites(ctx, rule, files, discharged):
                     ctx.fail(rule, key, "the value of read_length_determinant is used as a count / size without ever being compared with "
                                         "the 16K fragment boundary: a fragmented encoding (>= 16384 items) is read as a single fragment",
                              cs.loc(), detail)
-    return nw, nr
+    return
+    yield
 
 
 def r5(ctx):
